@@ -71,6 +71,28 @@ pub fn untok_opt_u64(t: &str) -> Option<Option<u64>> {
 }
 pub const BAD: &str = "BADCASE";
 
+/// Further reply headers that say nothing about the outcome, named by the driver in
+/// VERIF_NOISE_HEADERS (`hexname=hexvalue,...`; derived from the literals that are new in the
+/// crate's source, gen/srclit.py).  Empty unless the variable is set.
+pub fn extra_noise_headers() -> &'static [(String, String)] {
+    static H: std::sync::OnceLock<Vec<(String, String)>> = std::sync::OnceLock::new();
+    H.get_or_init(|| {
+        let mut out = Vec::new();
+        if let Ok(v) = std::env::var("VERIF_NOISE_HEADERS") {
+            for pair in v.split(',') {
+                if let Some((n, val)) = pair.split_once('=') {
+                    if let (Some(n), Some(val)) = (unhex(n).and_then(|b| String::from_utf8(b).ok()), unhex(val).and_then(|b| String::from_utf8(b).ok())) {
+                        if http::HeaderName::from_bytes(n.as_bytes()).is_ok() && http::HeaderValue::from_str(&val).is_ok() {
+                            out.push((n, val));
+                        }
+                    }
+                }
+            }
+        }
+        out
+    })
+}
+
 /// Raised (panic_any) by the harness itself when a case runs out of scripted clock readings or
 /// replies: a malformed case, not an observation of the crate.
 pub struct Exhausted;
